@@ -14,7 +14,7 @@ RULES = {
     'C13.R7': 'index validity = arena membership for every index-taking method of Tree (path_to_node, add_child_node, remove_all_descendants, node accessors)',
     'C13.R8': 'depth bookkeeping: children are enqueued with the depth of the popped entry + 1',
     'C13.R9': 'path_to_node: walk of parent edges from the node to the root recording (source, label), reversed once',
-    'C13.R6': 'index-order iterators filter on isleaf with the right polarity; num_terminals / num_nodes count the matching iterator',
+    'C13.R6': 'index-order iterators filter on isleaf with the right polarity; num_terminals / num_nodes count the matching iterator; node_indices / node_iter are the arena in index order, the AffTree accessors delegate to the arena tree',
 }
 CONTROL_REV = '078b142'  # thorough tier: the rules must still report the defects found (and since fixed) on the original tree
 CONTROLS = [('C13.R1', 'DfsEdge::new#seed'), ('C13.R3', 'Bfs::next#n_remaining'), ('C13.R4', 'DfsPre::skip_subtree#reset'), ('C13.R4', 'DfsEdge::skip_subtree#reset'), ('C13.R4', 'Bfs::skip_subtree#reset'), ('C13.R5', 'DfsPre::skip_subtree#size_lb'), ('C13.R5', 'DfsEdge::new#size_lb'), ('C13.R5', '<PolyhedraIter_as_Iterator>::size_hint')]
